@@ -6,7 +6,7 @@ P=$(realpath $1); PROP=$2; RUNS=${3:-30000}
 V=${BBSIM_VERIF:-/verif}
 D=$(mktemp -d /tmp/repo-mut-XXXXXX)
 cp -r /repo/. $D/ && rm -rf $D/.git
-if ! (cd $D && patch -p1 -s < $P); then echo "PATCH-FAILED $P"; rm -rf $D; exit 3; fi
+if ! (cd $D && patch -p1 -s -f < $P >/dev/null 2>&1); then echo "PATCH-FAILED $P"; rm -rf $D; exit 3; fi
 export GOFLAGS=-mod=mod GOPROXY=off GOSUMDB=off GOTOOLCHAIN=local
 if ! (cd $D && go build ./... 2>&1 | head -5 | grep -q . ); then :; else echo "MUTANT-DOES-NOT-COMPILE $P"; (cd $D && go build ./... 2>&1 | head -5); rm -rf $D; exit 3; fi
 R=$(mktemp -d /tmp/replays-XXXXXX)
